@@ -1242,7 +1242,11 @@ class Pipeline:
         """
         self._autogen_mapspec_axes()
         for p in parameter:
-            add_mapspec_axis(p, dims={}, axis=axis, functions=self.sorted_functions)
+            # `dims` holds the number of dimensions an array has *after* adding the axis. Functions
+            # that take `p` as a whole must agree with the functions that already map over `p`.
+            specs = [s for m in self.mapspecs() for s in m.inputs if s.name == p]
+            dims = {p: max(len(s.axes) + (axis not in s.axes) for s in specs)} if specs else {}
+            add_mapspec_axis(p, dims=dims, axis=axis, functions=self.sorted_functions)
         self._clear_internal_cache()
         self._validate()
 
